@@ -5,7 +5,7 @@ A parser is a callable value: a PyFn built by one of the combinator stubs below,
 Adt("nom-input", "Input", {text, loc, state}); a result is Result::Ok((remaining input, output)) or
 Result::Err(nom::Err::Error(..)).  Only what the decided parser functions use is modelled; anything else is
 unanalysable (the rules fail closed)."""
-from .teval import Adt, Tup, PyFn, FnRef, Sym, Top, strip, ok, err, some, none
+from .teval import Adt, Tup, PyFn, FnRef, Sym, Top, Char, RList, strip, ok, err, some, none
 
 INPUT = "nom-input"
 
@@ -22,12 +22,21 @@ def is_input(v):
 def advance(inp, n):
     inp = strip(inp)
     t = inp.fields["text"]
-    return Adt(INPUT, "Input", {"text": t[n:], "loc": inp.fields["loc"] + len(t[:n].encode()), "state": inp.fields["state"]})
+    return Adt(INPUT, "Input", {"text": t[n:], "loc": inp.fields["loc"] + len(t[:n].encode()), "state": copy_state(inp.fields["state"])})
 
 
 def take(inp, n):
     inp = strip(inp)
-    return Adt(INPUT, "Input", {"text": inp.fields["text"][:n], "loc": inp.fields["loc"], "state": inp.fields["state"]})
+    return Adt(INPUT, "Input", {"text": inp.fields["text"][:n], "loc": inp.fields["loc"], "state": copy_state(inp.fields["state"])})
+
+
+def is_error(r):
+    """Err(nom::Err::Error(_)): the recoverable kind (alt / many / opt go on); Failure and Incomplete are not."""
+    r = strip(r)
+    if not (isinstance(r, Adt) and r.variant == "Err"):
+        return False
+    e = strip(r.fields["0"])
+    return isinstance(e, Adt) and e.variant == "Error"
 
 
 def failure(inp, what):
@@ -44,9 +53,27 @@ def unpack(r):
     return t.items[0], t.items[1]
 
 
+def copy_state(v):
+    """Inputs are `Copy` values in the parser: a parser that assigns to `input.state` changes its own copy only."""
+    v = strip(v)
+    if isinstance(v, Adt):
+        return Adt(v.path, v.variant, {k: copy_state(x) for k, x in v.fields.items()})
+    if isinstance(v, Tup):
+        return Tup([copy_state(x) for x in v.items])
+    return v
+
+
+def copy_input(inp):
+    i = strip(inp)
+    if not is_input(i):
+        return inp
+    return Adt(INPUT, "Input", {"text": i.fields["text"], "loc": i.fields["loc"], "state": copy_state(i.fields["state"])})
+
+
 def run(I, p, inp):
     """Applies a parser value to an input."""
     p = strip(p)
+    inp = copy_input(inp)
     if isinstance(p, PyFn):
         return p.fn(I, [inp])
     if isinstance(p, FnRef):
@@ -66,8 +93,23 @@ def _digit1(I, inp):
     return ok(Tup([advance(inp, n), take(inp, n)]))
 
 
+def _eof(I, inp):
+    if strip(inp).fields["text"] == "":
+        return ok(Tup([inp, inp]))
+    return failure(inp, "eof")
+
+
+def _anychar(I, inp):
+    t = strip(inp).fields["text"]
+    if t:
+        return ok(Tup([advance(inp, 1), Char(t[0])]))
+    return failure(inp, "anychar")
+
+
 LEAF_PARSERS = {
+    "nom::character::complete::anychar": _anychar,
     "nom::character::complete::digit1": _digit1,
+    "nom::combinator::eof": _eof,
 }
 
 
@@ -96,7 +138,7 @@ def stubs():
             last = None
             for q in ps.items:
                 r = run(I2, q, inp)
-                if is_ok(r):
+                if is_ok(r) or not is_error(r):
                     return r
                 last = r
             return last
@@ -147,6 +189,8 @@ def stubs():
             if is_ok(r):
                 rest, o = unpack(r)
                 return ok(Tup([rest, some(o)]))
+            if not is_error(r):
+                return r
             return ok(Tup([inp, none()]))
         return parser(p, "opt")
 
@@ -178,6 +222,311 @@ def stubs():
                 return failure(inp, "map_res")
             return I2.top("map_res closure returned %r" % (v,))
         return parser(p, "map_res")
+
+
+    def delimited(I, a, fn, e):
+        def p(I2, inp):
+            r = run(I2, a[0], inp)
+            if not is_ok(r):
+                return r
+            rest, _ = unpack(r)
+            r = run(I2, a[1], rest)
+            if not is_ok(r):
+                return r
+            rest, o = unpack(r)
+            r = run(I2, a[2], rest)
+            if not is_ok(r):
+                return r
+            rest, _ = unpack(r)
+            return ok(Tup([rest, o]))
+        return parser(p, "delimited")
+
+    def tuple_(I, a, fn, e):
+        ps = strip(a[0])
+        if not isinstance(ps, Tup):
+            return I.top("sequence::tuple of something else than a tuple of parsers")
+
+        def p(I2, inp):
+            outs = []
+            rest = inp
+            for q in ps.items:
+                r = run(I2, q, rest)
+                if not is_ok(r):
+                    return r
+                rest, o = unpack(r)
+                outs.append(o)
+            return ok(Tup([rest, Tup(outs)]))
+        return parser(p, "tuple")
+
+    def many(at_least_one):
+        def build(I, a, fn, e):
+            def p(I2, inp):
+                acc = []
+                cur = inp
+                for _ in range(400):
+                    r = run(I2, a[0], cur)
+                    if not is_ok(r):
+                        if not is_error(r):
+                            return r
+                        if at_least_one and not acc:
+                            return r
+                        return ok(Tup([cur, RList(acc)]))
+                    rest, o = unpack(r)
+                    if acc or not at_least_one:
+                        # infinite loop check: the parser must always consume
+                        if len(strip(rest).fields["text"]) == len(strip(cur).fields["text"]):
+                            return failure(cur, "many: parser did not consume")
+                    acc.append(o)
+                    cur = rest
+                return I2.top("many0/many1: more than 400 iterations")
+            return parser(p, "many1" if at_least_one else "many0")
+        return build
+
+    def separated_list1(I, a, fn, e):
+        def p(I2, inp):
+            r = run(I2, a[1], inp)
+            if not is_ok(r):
+                return r
+            cur, o = unpack(r)
+            acc = [o]
+            for _ in range(400):
+                r = run(I2, a[0], cur)
+                if not is_ok(r):
+                    return ok(Tup([cur, RList(acc)])) if is_error(r) else r
+                rest, _ = unpack(r)
+                if len(strip(rest).fields["text"]) == len(strip(cur).fields["text"]):
+                    return failure(rest, "separated_list1: separator did not consume")
+                r = run(I2, a[1], rest)
+                if not is_ok(r):
+                    return ok(Tup([cur, RList(acc)])) if is_error(r) else r
+                cur, o = unpack(r)
+                acc.append(o)
+            return I2.top("separated_list1: more than 400 iterations")
+        return parser(p, "separated_list1")
+
+    def value(I, a, fn, e):
+        def p(I2, inp):
+            r = run(I2, a[1], inp)
+            if not is_ok(r):
+                return r
+            rest, _ = unpack(r)
+            return ok(Tup([rest, a[0]]))
+        return parser(p, "value")
+
+    def peek(I, a, fn, e):
+        def p(I2, inp):
+            r = run(I2, a[0], inp)
+            if not is_ok(r):
+                return r
+            _, o = unpack(r)
+            return ok(Tup([inp, o]))
+        return parser(p, "peek")
+
+    def verify(I, a, fn, e):
+        def p(I2, inp):
+            r = run(I2, a[0], inp)
+            if not is_ok(r):
+                return r
+            rest, o = unpack(r)
+            from .teval import Ref, Place, Cell
+            v = strip(I2.call_value(a[1], [Ref(Place(Cell(o)))]))
+            if v is True:
+                return ok(Tup([rest, o]))
+            if v is False:
+                return failure(inp, "verify")
+            return I2.top("verify predicate returned %r" % (v,))
+        return parser(p, "verify")
+
+    def all_consuming(I, a, fn, e):
+        def p(I2, inp):
+            r = run(I2, a[0], inp)
+            if not is_ok(r):
+                return r
+            rest, o = unpack(r)
+            if strip(rest).fields["text"] == "":
+                return ok(Tup([rest, o]))
+            return failure(rest, "all_consuming: input left")
+        return parser(p, "all_consuming")
+
+    def charset(v):
+        v = strip(v)
+        if isinstance(v, str):
+            return v
+        return None
+
+    def is_not(I, a, fn, e):
+        cs = charset(a[0])
+        if cs is None:
+            return I.top("is_not with a symbolic set")
+
+        def p(I2, inp):
+            t = strip(inp).fields["text"]
+            n = 0
+            while n < len(t) and t[n] not in cs:
+                n += 1
+            if n == 0:
+                return failure(inp, "is_not(%s)" % cs)
+            return ok(Tup([advance(inp, n), take(inp, n)]))
+        return parser(p, "is_not(%r)" % cs)
+
+    def none_of(I, a, fn, e):
+        cs = charset(a[0])
+        if cs is None:
+            return I.top("none_of with a symbolic set")
+
+        def p(I2, inp):
+            t = strip(inp).fields["text"]
+            if t and t[0] not in cs:
+                return ok(Tup([advance(inp, 1), Char(t[0])]))
+            return failure(inp, "none_of(%s)" % cs)
+        return parser(p, "none_of(%r)" % cs)
+
+    def one_of(I, a, fn, e):
+        cs = charset(a[0])
+        if cs is None:
+            return I.top("one_of with a symbolic set")
+
+        def p(I2, inp):
+            t = strip(inp).fields["text"]
+            if t and t[0] in cs:
+                return ok(Tup([advance(inp, 1), Char(t[0])]))
+            return failure(inp, "one_of(%s)" % cs)
+        return parser(p, "one_of(%r)" % cs)
+
+    def char_(I, a, fn, e):
+        c = strip(a[0])
+        c = c.c if isinstance(c, Char) else c
+        if not isinstance(c, str):
+            return I.top("character::char with a symbolic character")
+
+        def p(I2, inp):
+            t = strip(inp).fields["text"]
+            if t and t[0] == c:
+                return ok(Tup([advance(inp, 1), Char(c)]))
+            return failure(inp, "char(%s)" % c)
+        return parser(p, "char(%r)" % c)
+
+    def recognize(I, a, fn, e):
+        def p(I2, inp):
+            r = run(I2, a[0], inp)
+            if not is_ok(r):
+                return r
+            rest, _ = unpack(r)
+            n = len(strip(inp).fields["text"]) - len(strip(rest).fields["text"])
+            return ok(Tup([rest, take(inp, n)]))
+        return parser(p, "recognize")
+
+    def pair(I, a, fn, e):
+        def p(I2, inp):
+            r = run(I2, a[0], inp)
+            if not is_ok(r):
+                return r
+            rest, o1 = unpack(r)
+            r = run(I2, a[1], rest)
+            if not is_ok(r):
+                return r
+            rest, o2 = unpack(r)
+            return ok(Tup([rest, Tup([o1, o2])]))
+        return parser(p, "pair")
+
+    def escaped_transform(I, a, fn, e):
+        ctl = strip(a[1])
+        ctl = ctl.c if isinstance(ctl, Char) else ctl
+        if not isinstance(ctl, str) or len(ctl) != 1:
+            return I.top("escaped_transform with a symbolic control character")
+
+        def text_of(o):
+            o = strip(o)
+            if is_input(o):
+                return o.fields["text"]
+            if isinstance(o, str):
+                return o
+            if isinstance(o, Char):
+                return o.c
+            return None
+
+        def p(I2, inp):
+            # nom 7.1.3 bytes::complete::escaped_transform, on characters
+            full = strip(inp).fields["text"]
+            index = 0
+            res = ""
+            while index < len(full):
+                remainder = advance(inp, index)
+                r = run(I2, a[0], remainder)
+                if is_ok(r):
+                    i2, o = unpack(r)
+                    t = text_of(o)
+                    if t is None:
+                        return I2.top("escaped_transform: output %r" % (strip(o),))
+                    res += t
+                    left = len(strip(i2).fields["text"])
+                    if left == 0:
+                        return ok(Tup([advance(inp, len(full)), res]))
+                    if left == len(full):
+                        return ok(Tup([remainder, res]))
+                    index = len(full) - left
+                elif is_error(r):
+                    if full[index] == ctl:
+                        nxt = index + 1
+                        if nxt >= len(full):
+                            return failure(remainder, "escaped_transform: control character at the end")
+                        r2 = run(I2, a[2], advance(inp, nxt))
+                        if not is_ok(r2):
+                            return r2
+                        i2, o = unpack(r2)
+                        t = text_of(o)
+                        if t is None:
+                            return I2.top("escaped_transform: transformed output %r" % (strip(o),))
+                        res += t
+                        left = len(strip(i2).fields["text"])
+                        if left == 0:
+                            return ok(Tup([advance(inp, len(full)), res]))
+                        index = len(full) - left
+                    else:
+                        if index == 0:
+                            return failure(remainder, "escaped_transform")
+                        return ok(Tup([remainder, res]))
+                else:
+                    return r
+            return ok(Tup([advance(inp, index), res]))
+        return parser(p, "escaped_transform")
+
+    def span(I, a, fn, e):
+        def p(I2, inp):
+            start = strip(inp).fields["loc"]
+            r = run(I2, a[0], inp)
+            if not is_ok(r):
+                return r
+            rest, o = unpack(r)
+            end = strip(rest).fields["loc"]
+            return ok(Tup([rest, Tup([Tup([start, max(end - start, 0)]), o])]))
+        return parser(p, "pori::span")
+
+    def parse_method(I, a, fn, e):
+        return run(I, a[0], a[1])
+
+    def location(I, a, fn, e):
+        v = strip(a[0])
+        if is_input(v):
+            return v.fields["loc"]
+        return I.top("location of %r" % (v,))
+
+    def stateful_new(I, a, fn, e):
+        d = strip(a[0])
+        if isinstance(d, str):
+            return make_input(d, 0, a[1])
+        if is_input(d):
+            return Adt(INPUT, "Input", {"text": d.fields["text"], "loc": d.fields["loc"], "state": a[1]})
+        return I.top("Stateful::new of %r" % (d,))
+
+    def into_data(I, a, fn, e):
+        v = strip(a[0])
+        if is_input(v):
+            return v.fields["text"]
+        return v
+
+    def clone_parser(I, a, fn, e):
+        return strip(a[0])
 
     def call_mut(I, a, fn, e):
         # `(parser)(input)`: FnMut::call_mut(&mut parser, (input,))
@@ -211,6 +560,27 @@ def stubs():
         "nom::error::context": context,
         "nom::combinator::map": map_,
         "nom::combinator::map_res": map_res,
+        "nom::sequence::delimited": delimited,
+        "nom::sequence::tuple": tuple_,
+        "nom::multi::many0": many(False),
+        "nom::multi::many1": many(True),
+        "nom::multi::separated_list1": separated_list1,
+        "nom::combinator::value": value,
+        "nom::combinator::peek": peek,
+        "nom::combinator::verify": verify,
+        "nom::combinator::all_consuming": all_consuming,
+        "nom::bytes::complete::is_not": is_not,
+        "nom::character::complete::none_of": none_of,
+        "nom::bytes::complete::escaped_transform": escaped_transform,
+        "nom::character::complete::one_of": one_of,
+        "nom::character::complete::char": char_,
+        "nom::combinator::recognize": recognize,
+        "nom::sequence::pair": pair,
+        "pori::span": span,
+        "nom::Parser::parse": parse_method,
+        "pori::Location::location": location,
+        "pori::Stateful::<I, T>::new": stateful_new,
+        "pori::Located::<'i, I>::into_data": into_data,
         "std::ops::FnMut::call_mut": call_mut,
         "std::ops::Deref::deref": deref,
         "core::str::<impl str>::parse": str_parse,
